@@ -5,13 +5,13 @@ from lib import fw
 ORACLES = {
     "C02": {"drain_succeeds", "owner_only", "claim_succeeds", "reset_is_fresh"},
     "C04": {"active_liquidity_eq", "tick_gross_net_eq", "accumulator_shares_eq", "price_in_tick_interval", "reset_is_fresh"},
-    "C05": {"out_le_exact_curve", "quote_eq_execute", "roundtrip_no_profit", "swap_in_debit_le_stated", "swap_out_eq_response", "swap_in_eq_response", "swap_out_le_stated"},
-    "C06": {"second_claim_zero", "claim_succeeds", "accumulator_shares_eq"},
+    "C05": {"out_le_exact_curve", "in_ge_exact_curve", "quote_eq_execute", "roundtrip_no_profit", "swap_in_debit_le_stated", "swap_out_eq_response", "swap_in_eq_response", "swap_out_le_stated"},
+    "C06": {"fresh_position_claims_nothing", "second_claim_zero", "claim_succeeds", "accumulator_shares_eq"},
     "C15": {"no_panic"},
 }
 
 
-def run_cl(ctx, prop, n_quick=6, n_thorough=60):
+def run_cl(ctx, prop, n_quick=24, n_thorough=200):
     res = fw.corr(ctx, "cl", n_thorough if ctx.thorough() else n_quick)
     if res is None:
         return
